@@ -1461,7 +1461,6 @@ func genLsOps(r *Rand, objIdx int, c *Case, nt int, perTask int) {
 	}
 }
 
-
 // ---------------------------------------------------------------------------------------
 // C20, whole-broker variant: the E1 scenarios of other properties (routing, QoS exchanges with
 // retransmission and expiry sweeps, session life cycles, takeovers over 1-3 nodes with gossip
